@@ -197,8 +197,14 @@ class TestCaseMutation(MutationOperator):
                 # Also include the position after the last mutatable statement.
                 max_position += 1
 
+            backup = chromosome.test_case.clone()
             position = test_factory.insert_random_statement(chromosome.test_case, max_position)
             exponent += 1
+            if chromosome.size() > config.configuration.search_algorithm.chromosome_length:
+                # The statement together with the statements it depends on exceeds the
+                # maximum length: undo the insertion.
+                chromosome.test_case = backup
+                continue
             if 0 <= position < chromosome.size():
                 changed = True
         return changed
